@@ -33,6 +33,12 @@ CHECKS = {
         "note": "Trusts vlib/refurl.py (independent splitter), the idna package, CPython re; time clause uses CPU time with an absolute-and-relative threshold.",
         "design_ref": "DESIGN.md section 4, C14",
     },
+    "C04": {
+        "technique": "bounded-exhaustive (budget grid x method class x pool kind x every outcome sequence of length <= 2 quick / <= 3 thorough) + Hypothesis-generated policies and scripts (<= 5 outcomes) against a scripted in-memory server with a virtual clock; oracle: counting invariants over the attempts the server saw, classified by ground-truth fault category, plus the recorded sleeps and how the call ended",
+        "text": "The real HTTPConnectionPool / ProxyManager is driven through scripted sequences of connect errors, read errors, TLS record errors and retryable statuses; the attempts observed at the server are counted against total and the per-category budgets, re-sends of non-idempotent methods after read errors or statuses are flagged, every time.sleep of the retry module is bounded by backoff_max or the Retry-After just received, the caller's Retry object is snapshot-compared, and the final exception/response is compared with the last cause; an ample-budget liveness clause guards against a vacuous never-retry.",
+        "note": "Trusts vlib/servers.py ScriptServer and the ground-truth category table in props/c04.py. CONNECT tunnels are exercised in C09; known finding KF-C04-proxy (reset/EOF at the status line behind a proxy is classified 'other') is matched by signature and counted.",
+        "design_ref": "DESIGN.md section 4, C04",
+    },
     "C08": {
         "technique": "bounded-exhaustive (SAN name, host) pair enumeration + Hypothesis SAN lists / IP spellings / pin mutations; oracle: independent three-valued RFC 6125 reference (strict subset, liberal superset) and hashlib digest comparison",
         "text": "All pairs of names with <= 2 labels (quick) / <= 3 labels (thorough, 2.1e6 pairs x case variants) over the 11-label alphabet, generated SAN lists with IP and commonName variants, and tens of thousands of pins derived from true digests are decided against a reference that is independent of urllib3's matcher; both directions (must-accept, must-reject) are asserted.",
